@@ -4,6 +4,7 @@
 """
 from __future__ import annotations
 
+import functools
 import itertools
 import random
 
@@ -39,7 +40,23 @@ def ptr_col(xs, order, labels):
     return SymArray(out, int)
 
 
+# parameter variant in force for the grouping function under test (see gt.param_variants): the pinned
+# tree's grouping functions take no parameters, so there is exactly one (empty) variant each
+_EXTRA = {}
+_TAG = [""]
+
+
+def _extra(fn):
+    return _EXTRA.get(getattr(fn, "__name__", ""), {})
+
+
+def _real(fn):
+    kw = _extra(fn)
+    return functools.partial(fn, **kw) if kw else fn
+
+
 def run(fn, kwargs, labels):
+    kwargs = {**kwargs, **_extra(fn)}
     ctx = R.Ctx()
     ctx.key_domain = list(labels) if labels is not None else None
     v, ctx = R.run(fn, kwargs=kwargs, ctx=ctx)
@@ -91,7 +108,7 @@ def partner_real(fn, argname, vals, nm, n):
 
     def part(order, labs):
         lab = lambda p: -1 if p < 0 else labs[p]   # noqa: E731
-        ids = fn(numpy.array([labs[i] for i in order]), numpy.array([lab(sp[i]) for i in order]))
+        ids = _real(fn)(numpy.array([labs[i] for i in order]), numpy.array([lab(sp[i]) for i in order]))
         back = [None] * n
         for pos, i in enumerate(order):
             back[i] = int(ids[pos])
@@ -140,7 +157,7 @@ def sn_real(vals, nm, n):
     def part(order, labs):
         lab = lambda p: -1 if p < 0 else labs[p]   # noqa: E731
         try:
-            ids = sn_id_numpy(numpy.array([labs[i] for i in order]), numpy.array([lab(sp[i]) for i in order]), numpy.array([gv[i] for i in order]))
+            ids = _real(sn_id_numpy)(numpy.array([labs[i] for i in order]), numpy.array([lab(sp[i]) for i in order]), numpy.array([gv[i] for i in order]))
         except ValueError:
             return "raises"
         back = [None] * n
@@ -192,7 +209,7 @@ def bg_real(vals, nm, n):
     fg, alt, eb = vals["fg"], vals["alt"], vals["eb"]
 
     def part(order):
-        ids = bg_id_numpy(numpy.array([fg[i] for i in order]), numpy.array([alt[i] for i in order]), numpy.array([eb[i] for i in order]))
+        ids = _real(bg_id_numpy)(numpy.array([fg[i] for i in order]), numpy.array([alt[i] for i in order]), numpy.array([eb[i] for i in order]))
         back = [None] * n
         for pos, i in enumerate(order):
             back[i] = int(ids[pos])
@@ -230,7 +247,7 @@ def wthh_real(vals, nm, n):
     hh, v1, v2 = vals["hh"], vals["v1"], vals["v2"]
 
     def part(order):
-        ids = wthh_id_numpy(numpy.array([hh[i] for i in order]), numpy.array([v1[i] for i in order]), numpy.array([v2[i] for i in order]))
+        ids = _real(wthh_id_numpy)(numpy.array([hh[i] for i in order]), numpy.array([v1[i] for i in order]), numpy.array([v2[i] for i in order]))
         back = [None] * n
         for pos, i in enumerate(order):
             back[i] = int(ids[pos])
@@ -244,7 +261,7 @@ def wthh_real(vals, nm, n):
 
 def discharge(ck, obs, n, syms, real):
     for name, claim, cons in obs:
-        r, m = ck.oblige(f"{name} N={n}", cons, 120,
+        r, m = ck.oblige(f"{name} N={n}{_TAG[0]}", cons, 120,
                          sample=None if not name.endswith("_def") else {"condition": name, "claim": claim, "persons": n, "engine": "rulesym + z3 on the real grouping function"})
         ck.nontrivial.add((name.split("[")[0], n))
         if r == "sat":
@@ -252,20 +269,59 @@ def discharge(ck, obs, n, syms, real):
             for k, xs in syms.items():
                 vals[k] = [(z3.is_true(m.eval(x, model_completion=True)) if z3.is_bool(x) else m.eval(x, model_completion=True).as_long()) for x in xs]
             if real(vals, name):
-                ck.violation([name.split("[")[0]], f"{name} ({claim}) fails for N={n}: {vals}", {"kind": "groupsym", "name": name, "vals": vals, "n": n})
+                ck.violation([name.split("[")[0]], f"{name} ({claim}){_TAG[0]} fails for N={n}: {vals}",
+                             {"kind": "groupsym", "name": name, "vals": vals, "n": n, "variant": _TAG[0].replace(" params@", "")})
             else:
                 common.spurious(ck.pid, f"{name}: model {vals} does not reproduce on the real function")
+
+
+def _for_variants(ck, fn, body):
+    from gsv import gt
+    vs = gt.param_variants(fn)
+    ck.extra.setdefault("parameter_variants", {})[fn.__name__] = [lab or "none (takes no parameters)" for lab, _ in vs]
+    for lab, kw in vs:
+        _EXTRA[fn.__name__] = kw
+        _TAG[0] = f" params@{lab}" if lab else ""
+        try:
+            body()
+        finally:
+            _EXTRA.pop(fn.__name__, None)
+            _TAG[0] = ""
+
+
+def set_variant(fn, label):
+    from gsv import gt
+    for lab, kw in gt.param_variants(fn):
+        if lab == label:
+            _EXTRA[fn.__name__] = kw
+            return
+    raise common.HarnessError(f"no parameter variant {label!r} of {fn.__name__}")
 
 
 def run_all(ck, n, which=("eg", "ehe", "sn", "bg", "wthh")):
     from _gettsim import groupings as G
     if "eg" in which:
-        partner_function(ck, "eg", G.eg_id_numpy, "p_id_einstandspartner", n)
+        _for_variants(ck, G.eg_id_numpy, lambda: partner_function(ck, "eg", G.eg_id_numpy, "p_id_einstandspartner", n))
     if "ehe" in which:
-        partner_function(ck, "ehe", G.ehe_id_numpy, "p_id_ehepartner", n)
+        _for_variants(ck, G.ehe_id_numpy, lambda: partner_function(ck, "ehe", G.ehe_id_numpy, "p_id_ehepartner", n))
     if "sn" in which:
-        sn_function(ck, n)
+        _for_variants(ck, G.sn_id_numpy, lambda: sn_function(ck, n))
     if "bg" in which:
-        bg_function(ck, n)
+        _for_variants(ck, G.bg_id_numpy, lambda: bg_function(ck, n))
     if "wthh" in which:
-        wthh_function(ck, n)
+        _for_variants(ck, G.wthh_id_numpy, lambda: wthh_function(ck, n))
+
+
+def replay(d):
+    """re-evaluate a recorded groupsym counterexample on the real function (exit code semantics: True = reproduces)"""
+    from _gettsim import groupings as G
+    name, vals, n = d["name"], d["vals"], d["n"]
+    kind = name.split("_")[0]
+    fn = {"eg": G.eg_id_numpy, "ehe": G.ehe_id_numpy, "sn": G.sn_id_numpy, "bg": G.bg_id_numpy, "wthh": G.wthh_id_numpy}[kind]
+    if d.get("variant"):
+        set_variant(fn, d["variant"])
+    if kind == "eg":
+        return bool(partner_real(fn, "p_id_einstandspartner", vals, name, n))
+    if kind == "ehe":
+        return bool(partner_real(fn, "p_id_ehepartner", vals, name, n))
+    return bool({"sn": sn_real, "bg": bg_real, "wthh": wthh_real}[kind](vals, name, n))
